@@ -21,12 +21,12 @@ func TestMain(m *testing.M) {
 
 // runProp is the common shape of every property: draw a serialisable case,
 // evaluate it with a plain function, record evidence, report violations.
-func runProp[C any](t *testing.T, prop string, draw func(*rapid.T) C, check func(C) Outcome) {
+func runProp[C any](t *testing.T, prop, oracle string, draw func(*rapid.T) C, check func(C) Outcome) {
 	rapid.Check(t, func(rt *rapid.T) {
 		c := draw(rt)
 		o := check(c)
 		Record(prop, c, o)
-		Report(rt, prop, c, o.Violation)
+		Report(rt, prop, oracle, c, o.Violation)
 	})
 }
 
@@ -61,9 +61,9 @@ func replayFile(path string) (*Violation, string, error) {
 	if err := json.Unmarshal(b, &rf); err != nil {
 		return nil, "", err
 	}
-	rp, ok := replayers[rf.Property]
+	rp, ok := replayers[rf.Property+"/"+rf.Oracle]
 	if !ok {
-		return nil, rf.Property, fmt.Errorf("no replayer for %s", rf.Property)
+		return nil, rf.Property, fmt.Errorf("no replayer for %s/%s", rf.Property, rf.Oracle)
 	}
 	v, err := rp(rf.Case)
 	return v, rf.Property, err
